@@ -666,6 +666,13 @@ pub mod verif {
         Some(super::inside_group(pattern, regex_type))
     }
 
+    /// Whether the intervals of the pattern have valid bounds and stand where
+    /// the syntax allows them.
+    pub fn intervals_ok(pattern: &str, regex_type: &str) -> Option<bool> {
+        let regex_type = regex_type.parse::<super::RegexType>().ok()?;
+        Some(super::check_intervals(pattern, regex_type).is_ok())
+    }
+
     /// Whether the bracket expressions of the pattern are closed and their
     /// classes, collating symbols and equivalence classes well-formed.
     pub fn classes_ok(pattern: &str, regex_type: &str) -> Option<bool> {
